@@ -292,3 +292,82 @@ Proof.
   unfold uniform in Hp. apply in_map_iff in Hp. destruct Hp as (i & Hp & _). subst p q.
   destruct (Hd i) as [Hx Hy]. unfold to_unit. simpl. split; apply Qmake_unit_interval; auto.
 Qed.
+
+(* ------------------------------------------------------------------ the active list *)
+(* active_cells always holds distinct valid indices into samples: samples[idx] (pointsets.py:32) cannot raise
+   IndexError and active_cells.remove(idx) (pointsets.py:47) removes the only occurrence *)
+Definition active_ok (st : state) : Prop :=
+  NoDup (active st) /\ Forall (fun i => (i < length (samples st))%nat) (active st).
+
+Lemma remove_first_In : forall i l x, In x (remove_first i l) -> In x l.
+Proof.
+  intros i l. induction l as [|a r IH]; intros x H; simpl in *; [contradiction|].
+  destruct (Nat.eqb a i); [now right|]. destruct H as [H|H]; [now left|right; auto].
+Qed.
+
+Lemma remove_first_NoDup : forall i l, NoDup l -> NoDup (remove_first i l).
+Proof.
+  intros i l H. induction H as [|a r Hnin Hnd IH]; simpl; [constructor|].
+  destruct (Nat.eqb a i); [assumption|]. constructor; [|assumption].
+  intro Hin. apply Hnin. eapply remove_first_In; eauto.
+Qed.
+
+Lemma remove_first_not_In : forall i l, NoDup l -> ~ In i (remove_first i l).
+Proof.
+  intros i l H. induction H as [|a r Hnin Hnd IH]; simpl; [auto|].
+  destruct (Nat.eqb a i) eqn:E.
+  - apply Nat.eqb_eq in E. now subst.
+  - apply Nat.eqb_neq in E. intros [H|H]; [congruence|auto].
+Qed.
+
+Lemma NoDup_snoc : forall (l : list nat) x, NoDup l -> ~ In x l -> NoDup (l ++ [x]).
+Proof.
+  intros l x H. induction H as [|a r Hnin Hnd IH]; intros Hx; simpl.
+  - constructor; [auto|constructor].
+  - constructor.
+    + intro Hin. apply in_app_or in Hin. destruct Hin as [Hin|[Hin|[]]]; [auto|]. subst. apply Hx. now left.
+    + apply IH. intro. apply Hx. now right.
+Qed.
+
+Lemma step_active_ok : forall sc nx ny k st it st' o,
+  step sc nx ny k st it = Some (st', o) -> active_ok st -> active_ok st'.
+Proof.
+  intros sc nx ny k st [idx cands] st' o H [Hnd Hall]. unfold step in H.
+  destruct (mem_nat idx (active st)); [|discriminate].
+  destruct (inner sc nx ny (samples st) 0 k cands) as [i p| |]; inversion H; subst; clear H; unfold active_ok; simpl.
+  - rewrite app_length. simpl. split.
+    + apply NoDup_snoc; [assumption|]. intro Hin. rewrite Forall_forall in Hall. specialize (Hall _ Hin). lia.
+    + apply Forall_app. split.
+      * rewrite Forall_forall in *. intros x Hx. specialize (Hall x Hx). lia.
+      * constructor; [lia|constructor].
+  - split; [now apply remove_first_NoDup|].
+    rewrite Forall_forall in *. intros x Hx. apply Hall. eapply remove_first_In; eauto.
+  - split; assumption.
+Qed.
+
+Theorem bluenoise_active_ok : forall sc nx ny k x0 its st,
+  run sc nx ny k (init x0) its = Some st -> active_ok st.
+Proof.
+  intros sc nx ny k x0 its st H. unfold run in H.
+  destruct (run_trace sc nx ny k (init x0) its) as [[st2 os]|] eqn:Er; [|discriminate].
+  inversion H; subst st2. clear H.
+  assert (G : forall its st0 st1 os, run_trace sc nx ny k st0 its = Some (st1, os) -> active_ok st0 -> active_ok st1).
+  { induction its0 as [|it rest IH]; intros st0 st1 os0 Hr Hok; simpl in Hr.
+    - inversion Hr; subst; auto.
+    - destruct (step sc nx ny k st0 it) as [[sta o]|] eqn:Es; [|discriminate].
+      destruct (run_trace sc nx ny k sta rest) as [[stb osb]|] eqn:Er2; [|discriminate].
+      inversion Hr; subst. eapply IH; eauto. eapply step_active_ok; eauto. }
+  eapply G; eauto. unfold active_ok, init. simpl. split.
+  - constructor; [auto|constructor].
+  - constructor; [lia|constructor].
+Qed.
+
+(* once removed an index never comes back: it is not in the active list right after its removal *)
+Lemma step_remove_not_active : forall sc nx ny k st idx cands st',
+  active_ok st -> step sc nx ny k st (idx, cands) = Some (st', Remove) -> ~ In idx (active st').
+Proof.
+  intros sc nx ny k st idx cands st' [Hnd _] H. unfold step in H.
+  destruct (mem_nat idx (active st)); [|discriminate].
+  destruct (inner sc nx ny (samples st) 0 k cands); inversion H; subst. simpl.
+  now apply remove_first_not_In.
+Qed.
